@@ -210,7 +210,7 @@ func monitor(rep *emit.Report, c *caseRun) {
 				// C03: partials signed for another previous signature never count -- nor get in the way
 				rep.Fail("C03-partial-for-another-previous-signature-interferes", fmt.Sprintf("round %d: a threshold (%d) of valid partials over the head's signature reached the node, yet no beacon: accepted partials over %d different previous signatures share one slot", expectPut, thr, len(prevsOfRound[expectPut])), in)
 			}
-						rep.Fail("C05-threshold-of-partials-but-no-beacon", fmt.Sprintf("valid partials of a threshold (%d) of distinct live members for round %d on top of the head reached the node but the round was not stored", thr, expectPut), in)
+			rep.Fail("C05-threshold-of-partials-but-no-beacon", fmt.Sprintf("valid partials of a threshold (%d) of distinct live members for round %d on top of the head reached the node but the round was not stored", thr, expectPut), in)
 			if epoch > 0 {
 				rep.Fail("C07-new-group-threshold-but-round-halted", fmt.Sprintf("after the transition, valid partials of a threshold (%d) of the NEW group for round %d reached the node but the round was not produced", thr, expectPut), in)
 			}
